@@ -109,6 +109,16 @@ def body_tokens(join, body):
             en = join.name(op)
             kind = "load" if ".load" in op else "store"
             out.append(f"{kind}:{en}:{op}:{imm[0]}:{imm[1]}")
+        elif op == "atomic.fence":
+            out.append("fence")
+        elif op == "memory.atomic.notify":
+            out.append(f"notify:{imm[1]}")
+        elif op in ("memory.atomic.wait32", "memory.atomic.wait64"):
+            out.append(f"wait{op[-2:]}:{imm[1]}")
+        elif A.OPS[op].imm == "memarg" and A.OPS[op].prefix == 0xFE:
+            en = join.name(op)
+            kind = "cmpxchg" if "cmpxchg" in op else "rmw" if ".rmw" in op else "aload" if ".load" in op else "astore"
+            out.append(f"{kind}:{en}:{op}:{imm[0]}:{imm[1]}")
         elif A.OPS[op].imm == "none" and (A.OPS[op].prefix in (None, 0xFC)):
             out.append(f"num:{join.name(op)}:{op}")
         else:
